@@ -221,6 +221,13 @@ Theorem C05_recover_total :
 Proof. exact RecoverDirect_total. Qed.
 Print Assumptions C05_recover_total.
 
+(* 5'. Signing is total as well: the 65-byte compact signature is always unpacked within bounds. *)
+Theorem C05_sign_total :
+  forall o H nonce fuel d msg,
+    SignDirect o nonce fuel d msg <> Panic /\ Sign o H nonce fuel d msg <> Panic.
+Proof. intros. split; apply SignDirect_total. Qed.
+Print Assumptions C05_sign_total.
+
 (* 6. The 65-byte compact form R(32) || S(32) || V(1) round-trips; any other length is rejected; every
       65-byte string decodes and re-encodes to itself; CompactRSV panics exactly when R or S needs
       more than 32 bytes. *)
